@@ -28,6 +28,18 @@ def run(tier):
                             'solver': {'backend': 'native-bounded', 'verdict': 'counterexample', 'output': ''}})
     elif 'error' in res:
         pr.errors.append('datetimeNew witness failed to run: ' + str(res['error'])[-300:])
+    # the ISO round trip rests on assumed contracts of datetime (astimezone/isoformat/fromisoformat): bounded native stand-in
+    # over eight process time zones (DST zones with whole-hour and half-hour shifts, fixed-offset zones)
+    with open(os.path.join(here, 'native', 'witness', 'iso_roundtrip_witness.py'), encoding='utf-8') as fh:
+        res = run_witness(fh.read(), timeout=300)
+    pr.bounded.append(f'ISO text round trip: bounded native check, {res.get("checked")} datetimes (three years x four months x three times '
+                      f'of day) in {len(res.get("zones") or [])} process time zones: datetimeISOParse(datetimeISOFormat(d)) == d')
+    if res.get('violates'):
+        pr.failures.append({'obligation': 'C16.bounded.iso-text-round-trip', 'function': 'value.value_string', 'path': '',
+                            'inputs': res['counterexamples'][0], 'replay': {'reproduced': True, 'observed': res['counterexamples']},
+                            'solver': {'backend': 'native-bounded', 'verdict': 'counterexample', 'output': ''}})
+    elif 'error' in res:
+        pr.errors.append('ISO round-trip witness failed to run: ' + str(res['error'])[-300:])
     if os.environ.get('PYVC_EXPERIMENTAL_CASES'):
         run_contracts(pr, [DATETIME_NEW], tier)
     else:
@@ -38,7 +50,7 @@ def run(tier):
     pr.explanation = ('Proved: the component getters return the fields of the normalised instant; value_parse_datetime returns null '
                       'or a naive datetime and never raises (after the fix); datetime + number and datetime - datetime follow the '
                       'millisecond arithmetic of the statement incl. out-of-range results yielding null. datetimeNew: bounded native '
-                      'sweep against calendar arithmetic (its symbolic proof is written but does not finish: not proved). Assumed: ISO text round trip and time-zone behaviour (astimezone/isoformat).')
+                      'sweep against calendar arithmetic (its symbolic proof is written but does not finish: not proved). Assumed: ISO text round trip and time-zone behaviour (astimezone/isoformat) — a bounded native check over eight time zones stands in.')
     pr.assumptions += RUNTIME_ASSUMPTIONS + [
         'the civil calendar is abstract: DATE_* field functions, DIM(y, m) in 28..31 and DAYNUM with DAYNUM(next month) = DAYNUM + DIM (assumed contract of datetime/calendar.monthrange)',
         'astimezone() reads naive values as local time; aware.replace(tzinfo=None) is the wall clock in the value\'s own zone; U2L(x) = x + LOCOFF(x) with an uninterpreted process-zone offset: "whatever the zone is" is covered in the sense that nothing about LOCOFF is assumed, but the ISO round trip itself (isoformat/fromisoformat inverse) is an assumed contract',
